@@ -94,6 +94,13 @@ func (w *worker) call(req *request) ([]*result, error) {
 	return r, nil
 }
 
+func short(h string) string {
+	if len(h) > 16 {
+		return h[:16]
+	}
+	return h
+}
+
 func truncate(s string, n int) string {
 	if len(s) > n {
 		return s[:n] + "…"
@@ -250,6 +257,9 @@ func compareAll(txns []string, rs []*result) []*detail {
 	seen := map[string]bool{}
 	add := func(d *detail) {
 		// transactions whose contract code fans out to goroutines: any difference between executions is schedule dependence
+		if d.kind == "unit-distribute" {
+			d.what, d.kind = "map-order-dependent-output", "GetOrderedPools"
+		}
 		if site, ok := concurrentSite[d.kind]; ok && (d.what == "status" || d.what == "error-output" || d.what == "state" || d.what == "changes") {
 			d.msg = d.what + ": " + d.msg
 			d.what, d.kind = "schedule-dependent-output", site
@@ -283,7 +293,7 @@ func compareAll(txns []string, rs []*result) []*detail {
 				add(&detail{"error-output", k, kind, fmt.Sprintf("%s: txn %d %q fails in both, with output %q versus %q", who, k, truncate(txns[k], 120), truncate(x.Output, 150), truncate(y.Output, 150))})
 				continue
 			case x.Output != y.Output || x.Root != y.Root:
-				add(&detail{"state", k, kind + cause(txns, k), fmt.Sprintf("%s: txn %d %q succeeds in both; state root after it %s versus %s, output %q versus %q", who, k, truncate(txns[k], 120), x.Root[:16], y.Root[:16], truncate(x.Output, 60), truncate(y.Output, 60))})
+				add(&detail{"state", k, kind + cause(txns, k), fmt.Sprintf("%s: txn %d %q succeeds in both; state root after it %s versus %s, output %q versus %q", who, k, truncate(txns[k], 120), short(x.Root), short(y.Root), truncate(x.Output, 60), truncate(y.Output, 60))})
 				break txnLoop
 			case x.Changes != y.Changes:
 				add(&detail{"changes", k, kind, fmt.Sprintf("%s: txn %d %q: change count after it %d versus %d", who, k, truncate(txns[k], 120), x.Changes, y.Changes)})
@@ -509,6 +519,11 @@ func execCase(ops []string, req *request) string {
 }
 
 func oracle(ops, outs []string) *corr.Violation {
+	for _, o := range outs {
+		if strings.HasPrefix(o, "harness-panic") {
+			return &corr.Violation{Signature: "C06:harness-panic", Message: o, Ops: ops, Impl: outs}
+		}
+	}
 	v, ok := side.Load(hashOps(ops))
 	if !ok {
 		return nil
@@ -656,7 +671,9 @@ func gen(r *rand.Rand, thorough bool, i int) []string {
 					v += string(letters[r.Intn(len(letters))])
 				}
 			}
-			if r.Intn(3) == 0 {
+			if r.Intn(4) == 0 {
+				ops = append(ops, fmt.Sprintf("txn unit-distribute %d %d %d", 2+r.Intn(7), 1+r.Intn(50), 1+r.Intn(1000)))
+			} else if r.Intn(3) == 0 {
 				ops = append(ops, "txn newalloc "+pick(r, "blobber ghost1 ghost2", "ghost2 blobber ghost1 ghost3", "ghost1 ghost2"))
 			} else {
 				ops = append(ops, "txn chalresp "+v)
@@ -716,6 +733,9 @@ func fixed() [][]string {
 		{"init 0 0 fixed 60", "txn chalresp gcgggb", "exec"},
 		{"init 0 0 fixed 60", "txn chalresp sgbgck", "exec"},
 		{"init 0 0 fixed 20", "txn chalresp cbsk", "txn chalresp gggggg", "exec"},
+		// reward distribution over delegate pools with EQUAL balances and an indivisible remainder (stakepool.DistributeRewards ->
+		// equallyDistributeRewards -> GetOrderedPools): who gets the left-over units must not depend on map order
+		{"init 0 0 fixed 40", "txn unit-distribute 3 10 100", "txn unit-distribute 5 7 23", "txn unit-distribute 8 1000000 1000003", "exec"},
 		// state.GetItemsByIDs: several absent ids — the "not present" error of the lowest index
 		{"init 0 0 fixed 40", "txn newalloc blobber ghost1 ghost2 ghost3", "txn newalloc ghost3 ghost1 blobber", "exec"},
 		// cache warmth: an update that is applied in place and then fails in validate must not leak into a later save (history block first)
